@@ -1,11 +1,17 @@
 import RimeModel.Basic.Hex
 import RimeModel.C07.Translation
+import RimeModel.C07.PoetGraphs
 /-! line protocol for C07 (see checks/C07.py).
   table / nsyl n / syl id hex / e index extra texthex f32bits / endtable
-  cfg <script|table> <completion> <delims hex> <enable_sentence> / cps <start> <len> <sylls> (table)
+  cfg <script|table> <completion> <delims hex> <enable_sentence> [<word completion> [<sentence_over_completion>]] / cps <start> <len> <sylls> (table)
   in hex / g interp inputlen edgeStarts / gi start syll end type credbits / sent type start end texthex /
   pv len sylls / px len sylls / go
-→ lk p / L end texthex code matching remaining m e / c type start end texthex / endin
+→ lk p / L end texthex code matching remaining m e / c type start end texthex / mf <none | start end texthex weightbits> / ms <none | start end texthex m e> / endin
+  (the sentence among the `c` lines and the `ms` line is the one the PORT of the poet computes on the model's word graph;
+  a `sent` line is accepted and ignored)
+  poet <total> <start:end:entries>...   entries = `-` or `;`-separated  texthex/weightbits/codeids   (stand-alone op)
+→ poet cw <res> la <res>   res = none | weightbits|texthex|codeids|wordlengths|end/texthex/entryweightbits;...
+  computed with IEEE doubles (Lean `Float`), same operations in the same order as poet.cc
 -/
 open RimeModel RimeModel.C06 RimeModel.C07
 
@@ -36,7 +42,9 @@ structure St where
   table : Table := { head := [] }
   kind : String := "script"
   completion : Bool := false
+  wordCompletion : Bool := false        -- enable_word_completion (by default = enable_completion)
   enableSentence : Bool := false
+  soc : Bool := false                   -- sentence_over_completion
   cps : List (Nat × PrismKey) := []     -- reversed
   delims : Bytes := []
   input : Bytes := []
@@ -77,24 +85,126 @@ def showEntry (endPos : Nat) (ce : Chunk × Entry Dy) : String :=
 
 def showCand (c : Cand) : String := s!"c {c.type} {c.start} {c.endPos} {Hex.encode c.text}"
 
+/-! ### the stand-alone poet op (IEEE doubles) -/
+
+def floatOps : WOps Float :=
+  { add := fun a b => a + b, lt := fun a b => decide (a < b), eq := fun a b => a == b, zero := 0.0,
+    penalty := Float.ofBits 0xC0326bb1bbb55516 }     -- kPenalty = -18.420680743952367
+
+def hex16 (n : Nat) : String :=
+  let ds := (List.range 16).reverse.map fun i => Hex.hexDigit ((n / 16 ^ i) % 16)
+  String.ofList ds
+
+def dots (l : List Nat) : String :=
+  if l.isEmpty then "-" else ".".intercalate (l.map toString)
+
+def parseDots (s : String) : Option (List Nat) :=
+  if s == "-" then some [] else (s.splitOn ".").mapM (·.toNat?)
+
+def parseHex16 (s : String) : Option Nat :=
+  if s.length != 16 then none
+  else s.toList.foldlM (fun acc c => (Hex.digitVal c).map (fun d => acc * 16 + d)) 0
+
+def parsePEntry (s : String) : Option (PEntry Float) :=
+  match s.splitOn "/" with
+  | [t, w, c] => do
+    let text ← Hex.decode t
+    let bits ← parseHex16 w
+    let code ← parseDots c
+    pure { text := text, code := code, weight := Float.ofBits (UInt64.ofNat bits) }
+  | _ => none
+
+/-- `start:end:entries` -/
+def parsePEdge (s : String) : Option (Nat × Nat × List (PEntry Float)) :=
+  match s.splitOn ":" with
+  | [a, b, es] => do
+    let st ← a.toNat?
+    let en ← b.toNat?
+    let ents ← if es == "-" then some [] else (es.splitOn ";").mapM parsePEntry
+    pure (st, en, ents)
+  | _ => none
+
+/-- group the edges (given in the maps' iteration order: start ascending, then end ascending) -/
+def groupPEdges (l : List (Nat × Nat × List (PEntry Float))) : PGraph Float :=
+  let starts := sortDedup natLt (l.map (·.1))
+  starts.map fun s => (s, (l.filter (fun x => x.1 == s)).map (·.2))
+
+/-- keys of a `std::map` come strictly increasing -/
+def strictlyIncreasing : List Nat → Bool
+  | a :: b :: rest => decide (a < b) && strictlyIncreasing (b :: rest)
+  | _ => true
+
+def showSentence (r : Option (Sentence Float × List (Comp Float))) : String :=
+  match r with
+  | none => "none"
+  | some (s, cs) =>
+    let comps := ";".intercalate (cs.map fun c => s!"{c.endPos}/{Hex.encode c.entry.text}/{hex16 c.entry.weight.toBits.toNat}")
+    s!"{hex16 s.weight.toBits.toNat}|{Hex.encode s.text}|{dots s.code}|{dots s.wordLengths}|{comps}"
+
+def runPoet (total : Nat) (edges : List (Nat × Nat × List (PEntry Float))) : String :=
+  let g := groupPEdges edges
+  let one := fun (cmp : Line Float → Line Float → Bool) =>
+    showSentence ((poetComponents floatOps cmp g total).map fun cs => (cs.foldl Sentence.extend (Sentence.init floatOps), cs))
+  s!"poet cw {one (compareWeight floatOps)} la {one (leftAssociateCompare floatOps)}"
+
+/-- a dyadic number as a double (exact for the stored floats and doubles) -/
+def dyToFloat (d : Dy) : Float :=
+  let n := d.m.natAbs
+  let bl := if n == 0 then 0 else n.log2 + 1
+  -- at most 63 significant bits (the rest folded into a sticky bit) so that the single rounding of `ofNat` is the correct one
+  let k := bl - 63
+  let n' := if k == 0 then n else (n >>> k) ||| (if n % 2 ^ k == 0 then 0 else 1)
+  let f := (Float.ofNat n').scaleB (d.e + Int.ofNat k)
+  if d.m < 0 then -f else f
+
+/-- `DictEntryIterator::Peek`: `e.weight - kS + chunk.credibility` in doubles, in that order -/
+def peekF (ce : Chunk × Entry Dy) : PEntry Float :=
+  { text := ce.2.text, code := ce.1.code, weight := (dyToFloat ce.2.weight - Float.ofBits 0x40326bb1bbb55516) + dyToFloat ce.1.cred }
+
+def showFloatSentence (s : Option (Sentence Float)) : String :=
+  match s with
+  | some s => s!"mf 0 {s.endPos} {Hex.encode s.text} {hex16 s.weight.toBits.toNat}"
+  | none => "mf none"
+
+def showModelSentence (c : Option Cand) (w : Option Dy) : String :=
+  match c, w with
+  | some c, some w => s!"ms {c.start} {c.endPos} {Hex.encode c.text} {w.m} {w.e}"
+  | _, _ => "ms none"
+
 def runInput (st : St) (out : IO.FS.Stream) : IO Unit := do
   out.putStrLn s!"in {Hex.encode st.input}"
   let g : Graph := { inputLen := st.inputLen, interpLen := st.interp, indices := groupGraph st.gi.reverse, edgeStarts := st.edgeStarts }
   if st.kind == "script" then
-    let would := st.completion && st.interp == st.inputLen
+    let would := st.wordCompletion && st.interp == st.inputLen
     for p in (if would then [false, true] else [false]) do
       out.putStrLn s!"lk {if p then 1 else 0}"
       for kv in lookup st.table g 0 p Dy.zero do
         for ce in drainAll kv.2 do
           out.putStrLn (showEntry kv.1 ce)
-    for c in distinct [] (scriptTranslation st.table g 0 st.inputLen st.completion st.sentence) do
+    -- the sentence among the candidates: the port of the poet run with IEEE doubles (bit-identical to the code, ties included);
+    -- `ms`: the same port with exact dyadic arithmetic (the model the theorems speak about)
+    let senF := makeSentence floatOps (compareWeight floatOps) (scriptPoetGraphW peekF st.table g) g.interpLen
+    let sentF := senF.map (sentenceCand 0)
+    for c in distinct [] (scriptTranslation st.table g 0 st.inputLen st.wordCompletion sentF) do
       out.putStrLn (showCand c)
+    out.putStrLn (showFloatSentence senF)
+    out.putStrLn (showModelSentence (scriptSentence st.table g 0)
+      ((makeSentence dyOps (compareWeight dyOps) (scriptPoetGraph st.table g) g.interpLen).map (·.weight)))
   else
     let cpsAll := st.cps.reverse
     let cps := fun (s : Nat) => (cpsAll.filter (fun kv => kv.1 == s)).map (·.2)
-    for c in distinct [] (tableQuery st.table st.syllabary st.delims st.input 0 st.completion st.enableSentence st.exactKey
-                            st.expansion.reverse cps st.sentence) do
+    let senF := if st.enableSentence || st.soc then
+        makeSentence floatOps (leftAssociateCompare floatOps)
+          (tablePoetGraphW peekF st.table st.syllabary st.delims st.input cps) st.input.length
+      else none
+    let sentF := senF.map (sentenceCand 0)
+    for c in distinct [] (tableQueryS st.table st.syllabary st.delims st.input 0 st.completion st.enableSentence st.soc st.exactKey
+                            st.expansion.reverse cps sentF) do
       out.putStrLn (showCand c)
+    if st.enableSentence || st.soc then
+      out.putStrLn (showFloatSentence senF)
+      out.putStrLn (showModelSentence (tableSentence st.table st.syllabary st.delims st.input cps 0)
+        ((makeSentence dyOps (leftAssociateCompare dyOps) (tablePoetGraph st.table st.syllabary st.delims st.input cps) st.input.length).map (·.weight)))
   out.putStrLn "endin"
 
 partial def loop (h : IO.FS.Stream) (out : IO.FS.Stream) (st : St) : IO Unit := do
@@ -110,7 +220,14 @@ partial def loop (h : IO.FS.Stream) (out : IO.FS.Stream) (st : St) : IO Unit := 
     out.putStrLn s!"table {st.syllabary.length} {st.rows.length}"
     loop h out { st with table := build id st.syllabary.length st.rows.reverse }
   | ["cfg", kind, comp, delims, sen] =>
-    loop h out { st with kind := kind, completion := comp == "1", delims := (Hex.decode delims).getD [], enableSentence := sen == "1" }
+    loop h out { st with kind := kind, completion := comp == "1", wordCompletion := comp == "1", delims := (Hex.decode delims).getD [],
+                         enableSentence := sen == "1" }
+  | ["cfg", kind, comp, delims, sen, wc, soc] =>
+    loop h out { st with kind := kind, completion := comp == "1", wordCompletion := wc == "1", delims := (Hex.decode delims).getD [],
+                         enableSentence := sen == "1", soc := soc == "1" }
+  | ["cfg", kind, comp, delims, sen, wc] =>
+    loop h out { st with kind := kind, completion := comp == "1", wordCompletion := wc == "1", delims := (Hex.decode delims).getD [],
+                         enableSentence := sen == "1" }
   | ["cps", s, len, sy] => loop h out { st with cps := (s.toNat!, { length := len.toNat!, sylls := parseSylls sy }) :: st.cps }
   | ["in", hx] =>
     loop h out { st with input := (Hex.decode hx).getD [], gi := [], sentence := none, exactKey := none, expansion := [], cps := [],
@@ -123,6 +240,15 @@ partial def loop (h : IO.FS.Stream) (out : IO.FS.Stream) (st : St) : IO Unit := 
   | ["pv", len, sy] => loop h out { st with exactKey := some { length := len.toNat!, sylls := parseSylls sy } }
   | ["px", len, sy] => loop h out { st with expansion := { length := len.toNat!, sylls := parseSylls sy } :: st.expansion }
   | ["go"] => do runInput st out; loop h out st
+  | "poet" :: tot :: edges => do
+    match tot.toNat?, edges.mapM parsePEdge with
+    | some total, some es =>
+      -- what a `std::map<int, std::map<int, …>>` cannot hold is rejected: keys out of order or repeated
+      let keys := es.map fun e => e.1 * 1000000 + e.2.1
+      if strictlyIncreasing keys && es.all (fun e => decide (e.2.1 < 1000000)) then out.putStrLn (runPoet total es)
+      else out.putStrLn "bad-op"
+    | _, _ => out.putStrLn "bad-op"
+    loop h out st
   | _ => do out.putStrLn "bad-op"; loop h out st
 
 def main : IO Unit := do
